@@ -6,7 +6,8 @@ from the property text, independently of the model's table:
   fate       = f (passed on), s (StartServiceByName reply), e (error) token for a call
   activation = opened by an sp.<sid>.<name> token; closed when the name is taken
                (R answered with code 1), when the start times out (T) or when the
-               process of that activation fails (X status != 0, G, F)
+               process of that activation fails (X status != 0, G, F); a reload of the
+               configuration (Z) or a change of the service directory (V) closes nothing
 
   twice        a call met more than one fate
   order        messages passed on to one recipient in one step are not in order of arrival
@@ -52,6 +53,13 @@ def run_oracle(services, events, toks):
             new_call = {"id": order, "conn": c, "serial": serial, "name": name, "auto": k != "S", "fates": [], "immediate": False}
             calls[(c, serial)] = new_call
             order += 1
+        elif k == "V":
+            exec_of = {}
+            spec = ev[2:]
+            if spec != "-":
+                for t in spec.split(","):
+                    n, x, _ = t.split(":")
+                    exec_of.setdefault(n, int(x))
         elif k == "D":
             live.discard(int(p[1]))
             owner = {n: o for n, o in owner.items() if o != int(p[1])}
